@@ -151,6 +151,9 @@ type batchRec struct {
 
 // World is one concurrent run on one DB.
 type World struct {
+	zmu             sync.Mutex
+	zStates         []map[string]string // state of the private range after each of its operations
+	zDone           atomic.Int64        // index of the last completed operation on the private range
 	diagMu          sync.Mutex
 	diag            map[int64]string // t0 -> extra diagnostics for a failing view
 	AlwaysStability bool             // every iterator view is re-read and cloned (C04)
@@ -412,6 +415,10 @@ func (w *World) readAll(it *pebble.Iterator, reverse bool) (map[string]string, m
 // was committed, flushed or compacted in between.
 func (w *World) scanView(what string, src iterable, reverse bool) {
 	t0 := w.clock.Add(1)
+	zLower := int64(0)
+	if strings.HasPrefix(what, "db-iter") {
+		zLower = w.zDone.Load()
+	}
 	it, err := src.NewIter(&pebble.IterOptions{KeyTypes: pebble.IterKeyTypePointsAndRanges})
 	if err != nil {
 		w.fail("iter-error", "%s: NewIter: %v", what, err)
@@ -498,6 +505,7 @@ func (w *World) scanView(what string, src iterable, reverse bool) {
 	}
 	w.checkView(what, t0, pts, rks)
 	w.markersClosed(what, pts)
+	w.zCheck(what, pts, zLower)
 	w.count("view:" + strings.SplitN(what, " ", 2)[0])
 }
 
